@@ -218,10 +218,10 @@ class replace_op(base_op_state):
         plan._remove_pkg_blockers(old_choices)
         l = plan.state.fill_slotting(self.pkg, force=self.force)
         if l and not self.force:
-            # revert... limiter.
-            l2 = plan.state.fill_slotting(old)
+            # revert... limiter.  old was slotted before- possibly by force, being
+            # blocked itself or sharing the slot- so it goes back unconditionally.
+            plan.state.fill_slotting(old, force=True)
             plan.backtrack(revert_point)
-            assert not l2
             return l
 
         # wipe olds blockers.
